@@ -80,6 +80,13 @@ def random_thresholds(rng):
     th['log2_fold_min_th'] = rng.choice([0.8, 0.25, 0.0])
     if th['log2_fold_min_th'] >= th['log2_fold_th']:
         th['log2_fold_min_th'] = th['log2_fold_th'] / 2
+    # a strict threshold barely above its floor (closer than the 1e-5 that
+    # distance_sq < 1e-10 can bridge)
+    if rng.random() < 0.15:
+        a, b = rng.choice([('q1_th', 'q1_min_th'),
+                           ('qdiff_th', 'qdiff_min_th'),
+                           ('log2_fold_th', 'log2_fold_min_th')])
+        th[b] = th[a] - rng.choice([1.0e-6, 1.0e-7, 3.0e-6])
     return th
 
 
